@@ -719,7 +719,7 @@ structure MsgWF (m : Message) : Prop where
   qs : ∀ q ∈ m.queries, q.name.WF ∧ q.qtype < 65536 ∧ q.qclass < 65536
   an : ∀ r ∈ m.answers, SectionOK m.md.op r
   ns : ∀ r ∈ m.authorities, SectionOK m.md.op r
-  ar : ∀ r ∈ m.additionals, SectionOK m.md.op r
+  ar : ∀ r ∈ m.additionals, SectionOK m.md.op r true
   edns : m.edns = none
   sig : m.signature = none
 
@@ -759,8 +759,8 @@ theorem lay_final {L : Lay} (hL : IsLayout L) {bk b5 fb : Bytes} {p q : Nat} (hp
 
 
 /-- one section, in any outcome of its `emit_iter` -/
-theorem section_any {H : Nat × Nat → Prop} {op : Nat} {rs : List Record} {e e' : Enc} {n : Nat} {t : Bool}
-    (hwf : ∀ r ∈ rs, SectionOK op r) (happ : e.offset = e.buf.length) (hinv : PtrInvH H e)
+theorem section_any {H : Nat × Nat → Prop} {op : Nat} {isAdd : Bool} {rs : List Record} {e e' : Enc} {n : Nat}
+    {t : Bool} (hwf : ∀ r ∈ rs, SectionOK op r isAdd) (happ : e.offset = e.buf.length) (hinv : PtrInvH H e)
     (hH : ∀ a b, e.offset ≤ a → H (a, b)) (hnl : NoLower e)
     (h : countWasTruncated (e.emitIter (rs.map emitRecord)) = .ok (n, t) e') :
     n ≤ rs.length ∧ n ≤ 65535 ∧ t = decide (n < rs.length) ∧
@@ -819,8 +819,8 @@ def truncated (m : Message) (c : Counts) : Message :=
   { m with md := truncatedMd m c, answers := m.answers.take c.an, authorities := m.authorities.take c.ns,
            additionals := m.additionals.take c.ar }
 
-theorem sectionOK_take {op : Nat} {rs : List Record} (n : Nat) (h : ∀ r ∈ rs, SectionOK op r) :
-    ∀ r ∈ rs.take n, SectionOK op r := fun r hr => h r (List.mem_of_mem_take hr)
+theorem sectionOK_take {op : Nat} {isAdd : Bool} {rs : List Record} (n : Nat)
+    (h : ∀ r ∈ rs, SectionOK op r isAdd) : ∀ r ∈ rs.take n, SectionOK op r isAdd := fun r hr => h r (List.mem_of_mem_take hr)
 
 /-- **What `Message::emit` writes under a limit is what the decoder reads**: for every message
 satisfying `MsgWF` and every limit `L`, if the emission succeeds with counts `c`, then `c` is at most
@@ -937,9 +937,9 @@ theorem emitMessage_reads (opq : Nat → Rd Bytes) (m : Message) (hwf : MsgWF m)
           have LQ := lay_final (isLayout_all _ (by
             intro L hL; simp only [List.mem_map] at hL; obtain ⟨q, _, rfl⟩ := hL; exact isLayout_query q))
             (by omega) P2.lay pre2 hfblen hsame
-          have recsLay : ∀ rs : List Record, (∀ r ∈ rs, SectionOK m.md.op r) →
+          have recsLay : ∀ (b : Bool) (rs : List Record), (∀ r ∈ rs, SectionOK m.md.op r b) →
               IsLayout (layAll (rs.map layRecord)) := by
-            intro rs hrs
+            intro b rs hrs
             refine isLayout_all _ ?_
             intro L hL
             simp only [List.mem_map] at hL
@@ -951,9 +951,9 @@ theorem emitMessage_reads (opq : Nat → Rd Bytes) (m : Message) (hwf : MsgWF m)
           have wa := sectionOK_take anC hwf.an
           have wn := sectionOK_take nsC hwf.ns
           have wr := sectionOK_take arC hwf.ar
-          have LA := lay_final (recsLay _ wa) (by omega) P3.lay pre3 hfblen hsame
-          have LN := lay_final (recsLay _ wn) (by omega) P4.lay pre4 hfblen hsame
-          have LR := lay_final (recsLay _ wr) (by omega) P5.lay pre5 hfblen hsame
+          have LA := lay_final (recsLay _ _ wa) (by omega) P3.lay pre3 hfblen hsame
+          have LN := lay_final (recsLay _ _ wn) (by omega) P4.lay pre4 hfblen hsame
+          have LR := lay_final (recsLay _ _ wr) (by omega) P5.lay pre5 hfblen hsame
           have hhw : HeaderWF (truncatedMd m cc) cc := by
             refine ⟨hwf.id, hwf.op, ?_, ?_, ?_, ?_⟩
             · rw [hcc.1]; omega
